@@ -1066,16 +1066,13 @@ Proof.
   - (* replicate-snapshot: a fold over the names *)
     set (f := fun (acc : cnode * option N) (nm : str) =>
                 let '(x0, r0) := acc in
-                match r0 with
+                match db_id_of (cn_node x0) nm with
+                | Some d => (log_append x0 (mkRec id marker_snapshot d 3), r0)
                 | None => (x0, None)
-                | Some _ => match db_id_of (cn_node x0) nm with
-                            | Some d => (log_append x0 (mkRec id marker_snapshot d 3), Some id)
-                            | None => (x0, None)
-                            end
                 end).
     assert (H : forall l acc, cn_node (fst (fold_left f l acc)) = cn_node (fst acc)).
     { induction l as [|nm l IH]; intros acc; cbn [fold_left]; auto.
-      rewrite IH. destruct acc as [x0 [i|]]; cbn [f fst]; auto.
+      rewrite IH. destruct acc as [x0 r0]; cbn [f fst]; auto.
       destruct (db_id_of (cn_node x0) nm); reflexivity. }
     apply (H db_names (x, Some id)).
 Qed.
@@ -1528,19 +1525,30 @@ Proof.
   - destruct (db_id_of (cn_node x) name); cbn [snd]; auto.
   - set (f := fun (acc : cnode * option N) (nm : str) =>
                 let '(x0, r0) := acc in
-                match r0 with
+                match db_id_of (cn_node x0) nm with
+                | Some d => (log_append x0 (mkRec id marker_snapshot d 3), r0)
                 | None => (x0, None)
-                | Some _ => match db_id_of (cn_node x0) nm with
-                            | Some d => (log_append x0 (mkRec id marker_snapshot d 3), Some id)
-                            | None => (x0, None)
-                            end
                 end).
     assert (H : forall l acc, (snd acc = None \/ snd acc = Some id) ->
                 snd (fold_left f l acc) = None \/ snd (fold_left f l acc) = Some id).
     { induction l as [|nm l IH]; intros acc Ha; cbn [fold_left]; auto.
-      apply IH. destruct acc as [x0 [i|]]; cbn [f snd]; auto.
+      apply IH. destruct acc as [x0 r0]; cbn [f snd] in *; auto.
       destruct (db_id_of (cn_node x0) nm); cbn [snd]; auto. }
     apply (H db_names (x, Some id)). now right.
+Qed.
+
+Lemma repl_oplog_dead x rq id : cn_dead (fst (repl_oplog x rq id)) = cn_dead x.
+Proof.
+  destruct rq; cbn [repl_oplog fst]; auto;
+      try (unfold key_id; destruct (assoc_get String.eqb key (cn_keymap x));
+           destruct (db_id_of (cn_node x) db); reflexivity).
+    - destruct (db_id_of (cn_node x) name); reflexivity.
+    - set (f := fun (acc : cnode * option N) (nm : str) => _).
+      assert (H : forall l acc, cn_dead (fst (fold_left f l acc)) = cn_dead (fst acc)).
+      { induction l as [|nm l IH]; intros acc; cbn [fold_left]; auto.
+        rewrite IH. destruct acc as [x0 r0]; cbn [f fst]; auto.
+        destruct (db_id_of (cn_node x0) nm); reflexivity. }
+      apply (H db_names (x, Some id)).
 Qed.
 
 Definition fan_all (r : role) : bool := match r with StartingUp => true | _ => false end.
@@ -1558,35 +1566,25 @@ Proof.
   intros Hd Hr Hid Hne Hs Hp Ho. unfold repl_one.
   rewrite Hd, rp_roundtrip, Hp by assumption.
   pose proof (repl_oplog_node x rq id) as Hn. pose proof (repl_oplog_id x rq id) as Hi.
-  assert (Hdd : cn_dead (fst (repl_oplog x rq id)) = cn_dead x).
-  { clear. destruct rq; cbn [repl_oplog fst]; auto;
-      try (unfold key_id; destruct (assoc_get String.eqb key (cn_keymap x));
-           destruct (db_id_of (cn_node x) db); reflexivity).
-    - destruct (db_id_of (cn_node x) name); reflexivity.
-    - set (f := fun (acc : cnode * option N) (nm : str) => _).
-      assert (H : forall l acc, cn_dead (fst (fold_left f l acc)) = cn_dead (fst acc)).
-      { induction l as [|nm l IH]; intros acc; cbn [fold_left]; auto.
-        rewrite IH. destruct acc as [x0 [i|]]; cbn [f fst]; auto.
-        destruct (db_id_of (cn_node x0) nm); reflexivity. }
-      apply (H db_names (x, Some id)). }
+  pose proof (repl_oplog_dead x rq id) as Hdd.
   destruct (repl_oplog x rq id) as [x1 oid]. cbn [fst snd] in *.
   destruct Hi as [Hi|Hi]; [contradiction|]. subst oid. rewrite Hn.
   destruct (n_role (cn_node x)); cbn [fan_all]; try congruence; cbn [cn_set_node cn_node cn_dead]; rewrite Hdd; auto.
 Qed.
 
-(* "Missing DB Id": the replication future panics *)
+(* "Missing DB Id": the line is dropped (fix: the replication future used to panic here) *)
 Theorem leader_repl_one_missing_db x id req rq :
   cn_dead x = false -> n_role (cn_node x) <> Secondary ->
   (id < 2 ^ 64)%N -> req <> "" -> no_semi_end req -> parse_request req = POk rq ->
   snd (repl_oplog x rq id) = None ->
-  cn_dead (repl_one x ("rp " +++ N_to_str id +++ " " +++ req)) = true /\
+  cn_dead (repl_one x ("rp " +++ N_to_str id +++ " " +++ req)) = false /\
   cn_node (repl_one x ("rp " +++ N_to_str id +++ " " +++ req)) = cn_node x.
 Proof.
   intros Hd Hr Hid Hne Hs Hp Ho. unfold repl_one.
   rewrite Hd, rp_roundtrip, Hp by assumption.
-  pose proof (repl_oplog_node x rq id) as Hn.
+  pose proof (repl_oplog_node x rq id) as Hn. pose proof (repl_oplog_dead x rq id) as Hdd.
   destruct (repl_oplog x rq id) as [x1 oid]. cbn [fst snd] in *. subst oid. rewrite Hn.
-  destruct (n_role (cn_node x)); try congruence; cbn [cn_node cn_dead]; auto.
+  destruct (n_role (cn_node x)); try congruence; cbn [cn_node cn_dead]; rewrite Hdd; auto.
 Qed.
 
 (* what a member then receives parses back into the registered request *)
